@@ -217,6 +217,92 @@ theorem safe_optCat (inp : Input) (h : wf .optCat inp = true) : Safe inp (prog .
   simp only [shapeOk, Bool.and_eq_true] at hs
   exact safe_xferAll_fwd hs.1.1.2 (Nat.le_refl _) (destOk_res inp)
 
+/-! ## move_if, either -/
+
+theorem safe_moveIf (inp : Input) (o : Op) (ho : o = .moveIf ∨ o = .moveIfRvalue) (h : wf o inp = true) :
+    Safe inp (prog o inp) := by
+  have hs := shape_of_wf h
+  rcases ho with rfl | rfl <;>
+  · simp only [shapeOk, Bool.and_eq_true] at hs
+    exact safe_xferAll_mv hs.1.1.1.1.1.2 (Nat.le_refl _) (destOk_res inp)
+
+theorem safe_call_or_fwd {inp : Input} (c : Prop) [Decidable c] (h0 : catIn inp 0 anyCat = true) :
+    Safe inp (if c then callAll (inp.isRv 0) 0 (inp.size 0) .res else xferAll 0 (inp.size 0) (fwd (inp.isRv 0)) .res) :=
+  safe_ite (fun _ => safe_callAll h0 (Nat.le_refl _) (destOk_res inp)) (fun _ => safe_xferAll_fwd h0 (Nat.le_refl _) (destOk_res inp))
+
+theorem safe_fwd_or_call {inp : Input} (c : Prop) [Decidable c] (h0 : catIn inp 0 anyCat = true) :
+    Safe inp (if c then xferAll 0 (inp.size 0) (fwd (inp.isRv 0)) .res else callAll (inp.isRv 0) 0 (inp.size 0) .res) :=
+  safe_ite (fun _ => safe_xferAll_fwd h0 (Nat.le_refl _) (destOk_res inp)) (fun _ => safe_callAll h0 (Nat.le_refl _) (destOk_res inp))
+
+theorem safe_eith1 (inp : Input) (o : Op)
+    (ho : o = .eithMap ∨ o = .eithMapFailure ∨ o = .eithMatch ∨ o = .eithSuccessOpt ∨ o = .eithFailureOpt)
+    (h : wf o inp = true) : Safe inp (prog o inp) := by
+  have hs := shape_of_wf h
+  rcases ho with rfl | rfl | rfl | rfl | rfl <;> simp only [shapeOk, Bool.and_eq_true] at hs <;> have h0 := hs.1.1.1.2
+  · exact safe_call_or_fwd _ h0
+  · exact safe_fwd_or_call _ h0
+  · exact safe_callAll h0 (Nat.le_refl _) (destOk_res inp)
+  · exact safe_ite (fun _ => safe_xferAll_fwd h0 (Nat.le_refl _) (destOk_res inp)) (fun _ => safe_nil inp)
+  · exact safe_ite (fun _ => safe_nil inp) (fun _ => safe_xferAll_fwd h0 (Nat.le_refl _) (destOk_res inp))
+
+theorem safe_eithBind (inp : Input) (h : wf .eithBind inp = true) : Safe inp (prog .eithBind inp) := by
+  have hs := shape_of_wf h
+  simp only [shapeOk, Bool.and_eq_true] at hs
+  have h0 := hs.1.1.1.2
+  refine safe_ite (fun _ => ?_) (fun _ => safe_xferAll_fwd h0 (Nat.le_refl _) (destOk_res inp))
+  cases hr : inp.isRv 0
+  · simp only [Bool.false_eq_true, if_false]
+    exact safe_deriveEach (by simp) (destOk_res inp)
+  · simp only [if_true]
+    exact safe_append (safe_readAll (Nat.le_refl _)) (safe_xferAll_move (not_lvcr_of_rv hr) (Nat.le_refl _) (destOk_res inp))
+      (cross_of_noKills (noKills_readAll _ _))
+
+theorem safe_eithFromOptional (inp : Input) (h : wf .eithFromOptional inp = true) : Safe inp (prog .eithFromOptional inp) := by
+  have hs := shape_of_wf h
+  simp only [shapeOk, Bool.and_eq_true] at hs
+  exact safe_ite (fun _ => safe_fresh_res inp 1000 (by omega))
+    (fun _ => safe_xferAll_fwd hs.1.1.2 (Nat.le_refl _) (destOk_res inp))
+
+theorem safe_eithJoin (inp : Input) (h : wf .eithJoin inp = true) : Safe inp (prog .eithJoin inp) := by
+  have hs := shape_of_wf h
+  simp only [shapeOk, Bool.and_eq_true] at hs
+  exact safe_xferAll_fwd hs.1.1.1.2 (Nat.le_refl _) (destOk_res inp)
+
+theorem safe_eithApply2 (inp : Input) (h : wf .eithApply2 inp = true) : Safe inp (prog .eithApply2 inp) := by
+  have hs := shape_of_wf h
+  simp only [shapeOk, Bool.and_eq_true] at hs
+  obtain ⟨⟨⟨⟨⟨⟨_, h0⟩, h1⟩, _⟩, _⟩, _⟩, _⟩ := hs
+  refine safe_ite (fun _ => safe_ite (fun _ => safe_read_call h0) (fun _ => safe_xferAll_fwd h1 (Nat.le_refl _) (destOk_res inp)))
+    (fun _ => safe_append (safe_xferAll_fwd h0 (Nat.le_refl _) (destOk_res inp))
+      (safe_ite (fun _ => safe_nil inp) (fun _ => safe_xferAll_fwd h1 (Nat.le_refl _) (destOk_drop inp))) ?_)
+  intro x hx y hy
+  split at hy
+  · exact absurd hy List.not_mem_nil
+  · exact cross_of_args (onArg_xferAll _ _ _ _) (onArg_xferAll _ _ _ _) (by decide) x hx y hy
+
+theorem safe_eithSequence (inp : Input) (h : wf .eithSequence inp = true) : Safe inp (prog .eithSequence inp) := by
+  have hs := shape_of_wf h
+  simp only [shapeOk, Bool.and_eq_true, beq_iff_eq] at hs
+  obtain ⟨⟨⟨_, h0⟩, hlen⟩, _⟩ := hs
+  have hnl := not_lvcr_of_in h0 rvio_rv
+  have hrv : inp.isRv 0 = true := by
+    obtain ⟨c, hc, hm⟩ := (catIn_iff inp 0 _).1 h0
+    simp at hm; subst hm
+    exact (isRv_iff inp 0).2 hc
+  simp only [prog, hrv, fwd, if_true]
+  split
+  · rename_i k hk
+    have hlt : k < inp.par.length := (List.findIdx?_eq_some_iff_findIdx_eq.1 hk).1
+    exact safe_singleton ((ok_xfer_move inp 0 k .res).2 ⟨hnl, by omega, destOk_res inp⟩)
+  · exact safe_xferAll_move hnl (Nat.le_refl _) (destOk_res inp)
+
+theorem safe_eithFirstSuccess (inp : Input) (h : wf .eithFirstSuccess inp = true) : Safe inp (prog .eithFirstSuccess inp) := by
+  simp only [prog]
+  split
+  · exact safe_append (safe_fresh_range _ _ (destOk_drop inp))
+      (safe_singleton ((ok_fresh inp _ .res).2 ⟨by omega, destOk_res inp⟩)) (cross_of_noKills (noKills_fresh_range _ _))
+  · exact safe_fresh_range _ _ (destOk_res inp)
+
 /-- **every registered operation's program is safe**, for arguments of every size -/
 theorem prog_safe (o : Op) (inp : Input) (h : wf o inp = true) : Safe inp (prog o inp) := by
   cases o with
@@ -245,5 +331,18 @@ theorem prog_safe (o : Op) (inp : Input) (h : wf o inp = true) : Safe inp (prog 
   | optApply2 => exact safe_optApply2 inp h
   | optSequence => exact safe_optSequence inp h
   | optCat => exact safe_optCat inp h
+  | moveIf => exact safe_moveIf inp _ (Or.inl rfl) h
+  | moveIfRvalue => exact safe_moveIf inp _ (Or.inr rfl) h
+  | eithMap => exact safe_eith1 inp _ (Or.inl rfl) h
+  | eithMapFailure => exact safe_eith1 inp _ (Or.inr (Or.inl rfl)) h
+  | eithMatch => exact safe_eith1 inp _ (Or.inr (Or.inr (Or.inl rfl))) h
+  | eithSuccessOpt => exact safe_eith1 inp _ (Or.inr (Or.inr (Or.inr (Or.inl rfl)))) h
+  | eithFailureOpt => exact safe_eith1 inp _ (Or.inr (Or.inr (Or.inr (Or.inr rfl)))) h
+  | eithBind => exact safe_eithBind inp h
+  | eithFromOptional => exact safe_eithFromOptional inp h
+  | eithJoin => exact safe_eithJoin inp h
+  | eithApply2 => exact safe_eithApply2 inp h
+  | eithSequence => exact safe_eithSequence inp h
+  | eithFirstSuccess => exact safe_eithFirstSuccess inp h
 
 end Fcppt.C05
